@@ -13,6 +13,9 @@
      ndvcg         data ~ N(mu, Sigma) in 2 dimensions, parameters (mu, Sigma) resp. (mu, P = Sigma^-1)
                                                  F = blockdiag(Sigma^-1, K),  K[(a,b),(c,d)] = 1/2 Sigma^-1[a][c] Sigma^-1[b][d]
                                                  (precision: blockdiag(P, K) with K built from P^-1)
+     cvcgauss      vcgauss with complex data (real and imaginary part each N(., 1/s^2)), parameters (m complex, s)   F = diag(s^2, 4/s^2)
+     cgaussian     complex data, complex model C = A + i B, N^-1 = diag(icov):   M = C^H N^-1 C = (A^T F A + B^T F B) + i (A^T F B - B^T F A)
+                   (on real parameters the Fisher information is the real part)
    compositions:
      plain         the likelihood on its own parameter space
      amend         y = A x with an integer matrix A:           M = A^T F(A x) A
@@ -67,6 +70,13 @@ Choose ==
      \/ \E k \in {"gaussian", "poisson", "studentt"}, x \in Pts, A \in Models :
           /\ inst' = [stage |-> "done", comp |-> "freeze", kind |-> k, x |-> x, A |-> A, B |-> Id(2), S |-> Id(2)]
           /\ res' = [dim |-> 1, M |-> <<<<Pull(A, Fisher(k, Apply(A, x)))[1][1]>>>>]
+     \/ \E x \in Pts :
+          /\ inst' = [stage |-> "done", comp |-> "plain", kind |-> "cvcgauss", x |-> x, A |-> Id(2), B |-> Id(2), S |-> Id(2)]
+          /\ res' = [dim |-> 2, M |-> Diag2(RMul(x[2], x[2]), RDiv(Z(4), RMul(x[2], x[2])))]
+     \/ \E x \in Pts, A \in Models, B \in Models, cp \in BOOLEAN :
+          LET F == Fisher("gaussian", x)  AtFB == MMul(MT(A, 2, 2), MMul(F, B, 2, 2, 2), 2, 2, 2)  BtFA == MMul(MT(B, 2, 2), MMul(F, A, 2, 2, 2), 2, 2, 2) IN
+          /\ inst' = [stage |-> "done", comp |-> IF cp THEN "camend-complex" ELSE "camend-real", kind |-> "cgaussian", x |-> x, A |-> A, B |-> B, S |-> Id(2)]
+          /\ res' = [dim |-> 2, M |-> MAdd(Pull(A, F), Pull(B, F), 2, 2), Mim |-> [i \in 1..2 |-> [j \in 1..2 |-> RSub(AtFB[i][j], BtFA[i][j])]]]
      \/ \E S \in Sigmas, prec \in BOOLEAN :
           /\ inst' = [stage |-> "done", comp |-> IF prec THEN "precision" ELSE "covariance", kind |-> "ndvcg", x |-> <<Z(1), Z(2)>>, A |-> Id(2), B |-> Id(2), S |-> S]
           /\ res' = [dim |-> 6, M |-> NdFisher(S, prec)]
@@ -75,8 +85,11 @@ Spec == Init /\ [][Next]_vars
 \* ---- laws on the oracle itself -------------------------------------------------------------------------------
 Symmetric == inst.stage = "done" => \A i, j \in 1..res.dim : res.M[i][j] = res.M[j][i]
 PositiveDiagonal == inst.stage = "done" => \A i \in 1..res.dim : RLt(Z(0), res.M[i][i]) \/ res.M[i][i] = Z(0)
+\* complex instances: the metric is Hermitian
+Hermitian == (inst.stage = "done" /\ "Mim" \in DOMAIN res) => \A i, j \in 1..res.dim : res.Mim[i][j] = RNeg(res.Mim[j][i])
 RatJ(q) == [n |-> q[1], d |-> q[2]]
 MatJ(M, n) == [i \in 1..n |-> [j \in 1..n |-> RatJ(M[i][j])]]
 Emit == inst.stage = "none" \/ PrintT(ToJson([comp |-> inst.comp, kind |-> inst.kind, x |-> [i \in 1..2 |-> RatJ(inst.x[i])], A |-> MatJ(inst.A, 2), B |-> MatJ(inst.B, 2),
-                                               S |-> MatJ(inst.S, 2), dim |-> res.dim, M |-> MatJ(res.M, res.dim)]))
+                                               S |-> MatJ(inst.S, 2), dim |-> res.dim, M |-> MatJ(res.M, res.dim),
+                                               Mim |-> IF "Mim" \in DOMAIN res THEN MatJ(res.Mim, res.dim) ELSE <<>>]))
 =============================================================================
